@@ -3,7 +3,7 @@
 name=$1; shift
 wt=/tmp/try_$name.$$
 git -C /repo worktree add -q --detach $wt HEAD || exit 9
-( cd $wt && git apply /verif/seeded/$name/patch.diff ) || { echo "patch does not apply"; git -C /repo worktree remove --force $wt; exit 9; }
+( cd $wt && git apply -3 /verif/seeded/$name/patch.diff 2>/dev/null ) || { echo "patch does not apply"; git -C /repo worktree remove --force $wt; exit 9; }
 for c in "$@"; do
   VERIF_REPO=$wt VERIF_EVIDENCE_DIR=/tmp/try_evidence.$$ /verif/check $c ${TIER:+--tier $TIER} 2>&1 | grep -E "^(VIOLATION|KNOWN|\[C)" | grep -v "UNDECIDED:" | head -8
   echo "  -> $name vs $c done"
